@@ -158,66 +158,80 @@ def determine_right_operand_type(
         if not ref_type_details.is_list:
             raise Exception("cannot filter non-list type")
 
-        # are left and right comparable by the operator?
-        for i in range(len(operation["filter"]["where"])):
-            comparison = operation["filter"]["where"][i]
-            operand_types = {}
-            for side in ["left", "right"]:
-                operand = comparison[side]
+        # are left and right comparable by the operator, in every clause?
+        def validate_filter_clauses(clauses):
+            for comparison in clauses:
+                if "where" in comparison and "left" not in comparison:
+                    # nested filter query
+                    validate_filter_clauses(comparison["where"])
+                    continue
 
-                if isinstance(operand, dict):
-                    if "ref" not in operand:
-                        raise Exception("invalid filter operand")
+                operand_types = {}
+                for side in ["left", "right"]:
+                    operand = comparison[side]
 
-                    split_ref = operand["ref"].split(".")
-                    if split_ref[0] == "$_item":
-                        # filter variable
-                        if len(split_ref) > 1:
-                            # need to resolve path
-                            if ref_type_details.object_type_ref is None:
-                                raise Exception(
-                                    "cannot resolve path from non-object type"
+                    if isinstance(operand, dict) or utils.is_filter_ref(operand):
+                        if isinstance(operand, dict) and "ref" not in operand:
+                            raise Exception("invalid filter operand")
+
+                        # the filter variable may be written as a bare string
+                        split_ref = (
+                            operand["ref"] if isinstance(operand, dict) else operand
+                        ).split(".")
+                        if split_ref[0] == "$_item":
+                            # filter variable
+                            if len(split_ref) > 1:
+                                # need to resolve path
+                                if ref_type_details.object_type_ref is None:
+                                    raise Exception(
+                                        "cannot resolve path from non-object type"
+                                    )
+
+                                operand_types[
+                                    side
+                                ] = schema_validator._resolve_type_from_object_path(
+                                    ref_type_details.object_type_ref, split_ref[1:]
                                 )
-
+                            else:
+                                # same type as the collection being filtered, but de-listified
+                                operand_types[side] = TypeDetails(
+                                    is_list=False,
+                                    item_type=ref_type_details.item_type,
+                                    object_type_ref=ref_type_details.object_type_ref,
+                                )
+                        else:
+                            # some other ref type
                             operand_types[
                                 side
-                            ] = schema_validator._resolve_type_from_object_path(
-                                ref_type_details.object_type_ref, split_ref[1:]
-                            )
-                        else:
-                            # same type as the collection being filtered, but de-listified
-                            operand_types[side] = TypeDetails(
-                                is_list=False,
-                                item_type=ref_type_details.item_type,
-                                object_type_ref=ref_type_details.object_type_ref,
+                            ] = schema_validator.resolve_ref_type_details(
+                                path,
+                                operand["ref"],
+                                pipeline_scope,
+                                resolution_context_thread_group_ref,
                             )
                     else:
-                        # some other ref type
-                        operand_types[side] = schema_validator.resolve_ref_type_details(
-                            path,
-                            operand["ref"],
-                            pipeline_scope,
-                            resolution_context_thread_group_ref,
+                        # scalar
+                        operand_types[side] = type_details_from_scalar(operand)
+
+                    if operand_types[side] is None:
+                        raise Exception(
+                            f"invalid filter operand: {json.dumps(operand)}"
                         )
-                else:
-                    # scalar
-                    operand_types[side] = type_details_from_scalar(operand)
 
-                if operand_types[side] is None:
-                    raise Exception(f"invalid filter operand: {json.dumps(operand)}")
+                left_type = operand_types["left"].to_string()
+                right_type = operand_types["right"].to_string()
+                if not utils.types_are_comparable(
+                    left_type,
+                    right_type,
+                    comparison["operator"],
+                ):
+                    raise Exception(
+                        f"invalid filter comparison: {comparison} ({left_type} {comparison['operator']} {right_type})"
+                    )
 
-            left_type = operand_types["left"].to_string()
-            right_type = operand_types["right"].to_string()
-            if utils.types_are_comparable(
-                left_type,
-                right_type,
-                comparison["operator"],
-            ):
-                return ref_type_details
+        validate_filter_clauses(operation["filter"]["where"])
 
-            raise Exception(
-                f"invalid filter comparison: {comparison} ({left_type} {comparison['operator']} {right_type})"
-            )
+        return ref_type_details
 
     if "select" in operation:
         # ref must be an edge or edge collection
